@@ -2,7 +2,7 @@
    Only statements here; every proof is `exact <lemma>` or a closed computation over the finite
    symbol tables. *)
 From Coq Require Import ZArith QArith Qcanon.
-From Verif Require Import Num NumFacts Units UnitsFacts.
+From Verif Require Import Num NumFacts Units UnitsFacts UnitTable UnitTableFacts.
 Open Scope Qc_scope.
 
 (* Conversion multiplies by prod_b (src_b / dst_b)^(dim_b) and keeps the dimension. *)
@@ -82,6 +82,23 @@ Theorem C06_si_molar : forall m,
   = p10 (molar_prefix m) * si_amount Mol / Qcpowz (si_space Dm) 3.
 Proof. intros m; destruct m; apply Qc_is_canon; vm_compute; reflexivity. Qed.
 Print Assumptions C06_si_molar.
+
+(* the code's own unit tables (Model/UnitTable.v: `_units_conversion_dict` and `_units_labels_dict` of units.py, re-read from the
+   source on every run by harness/translate_units.py, number literals with their decimal meaning): every symbol of the code is a
+   symbol of the model, of the same base kind, with exactly the code's factor; the label lists are the tables' keys, the molar and
+   litre labels are molar and litre symbols of the model; the model has no symbol the code does not list; no spelling is listed
+   under two bases *)
+Theorem C06_code_tables_agree : code_tables_ok = true.
+Proof. exact code_tables_agree. Qed.
+Print Assumptions C06_code_tables_agree.
+
+Theorem C06_model_has_no_other_symbol : model_symbols_listed = true.
+Proof. exact model_has_no_other_symbol. Qed.
+Print Assumptions C06_model_has_no_other_symbol.
+
+Theorem C06_symbols_have_one_meaning : code_symbols_unambiguous = true.
+Proof. exact code_symbols_one_meaning. Qed.
+Print Assumptions C06_symbols_have_one_meaning.
 
 (* non-vacuity: a concrete conversion computes to the expected number:
    2 km2.h-1 -> m2.s-1  is  2 * 10^6 / 3600 *)
